@@ -1,2 +1,13 @@
 // Package checks holds one driver per property (C01..C20); each registers itself with fw.
 package checks
+
+import "time"
+
+// tierDur returns q minutes in the quick tier and t minutes in the thorough tier.
+func tierDur(tier string, q, t int) time.Duration {
+	if tier == "thorough" {
+		return time.Duration(t) * time.Minute
+	}
+
+	return time.Duration(q) * time.Minute
+}
